@@ -1,10 +1,988 @@
-// Package c03 holds the runtime monitors for property C03 (see DESIGN.md section 4).
+// Package c03 monitors expression evaluation: every generated token sequence is
+// grouped and evaluated by an independent reference (ref.go) and by the real
+// lexer/parser/runtime of /repo; tree grouping and value/error must agree
+// (DESIGN.md section 4, C03).
 package c03
 
-import "verif/harness/core"
+import (
+	"fmt"
+	"sort"
+	"strings"
+
+	"github.com/krotik/ecal/interpreter"
+
+	"verif/harness/core"
+)
 
 func init() { core.Register("C03", Run) }
 
+type harness struct {
+	c        *core.Ctx
+	erp      *interpreter.ECALRuntimeProvider
+	reported int // differences seen so far in this process (bounds the cost of minimisation)
+}
+
+// result of comparing one source text
+type result struct {
+	cat   string   // "" = agreement; tree | parse-error | value | missing-error | unexpected-error | error-kind | error-operand | panic | harness
+	devs  []string // known deviations that explain the difference (cat is then "dev")
+	key   string   // panic key
+	exp   outcome
+	tree  *node
+	real  realOut
+	got   interface{}
+	nlSrc string
+}
+
+func assignTarget(tree *node) string {
+	if tree.op == ":=" && tree.kids[0].op == "" {
+		return tree.kids[0].a.varName
+	}
+	return ""
+}
+
+// assess runs both sides on one source text.
+func (h *harness) assess(toks []token, src string, spans []span) result {
+	var res result
+	tree, err := refParse(toks)
+	if err != nil {
+		res.cat = "harness"
+		res.key = err.Error()
+		return res
+	}
+	res.tree = tree
+	env := &evalEnv{}
+	res.exp = env.eval(tree)
+	target := assignTarget(tree)
+	vars := collectVars(toks)
+	if target != "" {
+		delete(vars, target)
+	}
+	res.real = runReal(h.erp, src, vars, target, res.exp.k != oExcluded)
+	r := &res.real
+	switch {
+	case r.panicKey != "":
+		res.cat, res.key = "panic", r.panicKey
+		return res
+	case r.parseErr != nil:
+		res.cat = "parse-error"
+		return res
+	case r.shape != tree.shape():
+		res.cat = "tree"
+		return res
+	case !r.evaluated:
+		return res
+	}
+	got := r.res
+	if target != "" && r.err == nil {
+		if !r.varSet {
+			res.cat = "value"
+			return res
+		}
+		got = r.varVal
+	}
+	res.got = got
+	ok, cat := conforms(res.exp, got, r.err, src, spans)
+	if ok {
+		return res
+	}
+	res.cat = cat
+	// is the difference explained by known deviations (and only by them)?
+	denv := &evalEnv{dev: true}
+	dexp := denv.eval(tree)
+	if len(denv.fired) > 0 && dexp.k != oAny {
+		if ok2, _ := conforms(dexp, got, r.err, src, spans); ok2 {
+			res.cat = "dev"
+			for d := range denv.fired {
+				res.devs = append(res.devs, d)
+			}
+			sort.Strings(res.devs)
+		}
+	}
+	return res
+}
+
+// judge assesses a case and reports a difference with a minimal witness.
+func (h *harness) judge(stream string, idx int, toks []token, src string, spans []span) result {
+	c := h.c
+	c.AddEvals(1)
+	res := h.assess(toks, src, spans)
+	h.observe(res)
+	if res.cat == "" {
+		return res
+	}
+	if res.cat == "harness" {
+		c.Inconclusive("generator produced a token sequence the reference cannot group: "+res.key, stream, idx,
+			map[string]interface{}{"tokens": tokensText(toks)})
+		return res
+	}
+	// minimal witness: the smallest sub-term (own tokens, plain layout) that
+	// still shows a difference of the same class
+	minToks, minRes := toks, res
+	minSrc := src
+	found := false
+	type window struct{ lo, hi int }
+	var subs []window
+	h.reported++
+	if h.reported <= 60 {
+		// every short window of the token sequence that is an expression by itself
+		for l := 1; l <= 13 && l < len(toks); l++ {
+			for lo := 0; lo+l <= len(toks); lo++ {
+				w := toks[lo : lo+l]
+				if w[0].k == tkRP || w[l-1].k == tkLP || w[l-1].k == tkOp {
+					continue
+				}
+				if wt, err := refParse(w); err == nil && wt.op != ":=" {
+					subs = append(subs, window{lo, lo + l - 1})
+				}
+			}
+		}
+	}
+	nw := len(subs)
+	res.tree.walk(func(n *node) {
+		if n.hi-n.lo < len(toks)-1 {
+			subs = append(subs, window{n.lo, n.hi})
+		}
+	})
+	sort.SliceStable(subs[nw:], func(i, j int) bool { return subs[nw+i].hi-subs[nw+i].lo < subs[nw+j].hi-subs[nw+j].lo })
+	sameClass := func(a, b result) bool {
+		if a.cat == "dev" || b.cat == "dev" {
+			return a.cat == b.cat
+		}
+		return b.cat != "" && b.cat != "harness"
+	}
+	for _, n := range subs {
+		st := toks[n.lo : n.hi+1]
+		ssrc, ssp := renderPlain(st)
+		sr := h.assess(st, ssrc, ssp)
+		if sameClass(res, sr) {
+			minToks, minRes, minSrc, found = st, sr, ssrc, true
+			break
+		}
+	}
+	layoutOnly := false
+	if !found {
+		psrc, psp := renderPlain(toks)
+		if psrc != src {
+			pr := h.assess(toks, psrc, psp)
+			if pr.cat == "" {
+				layoutOnly = true
+			} else if sameClass(res, pr) {
+				minRes, minSrc = pr, psrc
+			}
+		}
+	}
+	detail := map[string]interface{}{
+		"source":          src,
+		"variables":       showVars(collectVars(toks)),
+		"minimal_source":  minSrc,
+		"minimal_vars":    showVars(collectVars(minToks)),
+		"expected":        minRes.exp.String(),
+		"expected_tree":   minRes.tree.shape(),
+		"observed_tree":   minRes.real.shape,
+		"observed":        showObserved(minRes),
+		"difference":      minRes.cat,
+		"layout_specific": layoutOnly,
+	}
+	if layoutOnly {
+		detail["minimal_source"] = src
+	}
+	switch minRes.cat {
+	case "dev":
+		for _, d := range minRes.devs {
+			c.Violation("dev:"+d, devText[d]+": "+minSrc+" => "+showObserved(minRes)+", the reference semantics give "+minRes.exp.String(), stream, idx, detail)
+		}
+	case "panic":
+		detail["panic"] = minRes.real.panicMsg
+		c.Violation(minRes.key, "evaluation of an expression inside the property's domain panicked: "+minSrc, stream, idx, detail)
+	default:
+		sig := minRes.tree.describe()
+		if layoutOnly {
+			sig = "layout"
+		}
+		c.Violation("diff:"+minRes.cat+":"+sig, describeDiff(minRes, minSrc), stream, idx, detail)
+	}
+	return res
+}
+
+func describeDiff(r result, src string) string {
+	switch r.cat {
+	case "tree":
+		return fmt.Sprintf("%q is grouped as %s, the documented precedence gives %s", src, r.real.shape, r.tree.shape())
+	case "parse-error":
+		return fmt.Sprintf("%q is a single well-formed statement but was rejected: %v", src, r.real.parseErr)
+	}
+	return fmt.Sprintf("%q => %s, the reference semantics give %s", src, showObserved(r), r.exp.String())
+}
+
+func showObserved(r result) string {
+	switch {
+	case r.real.panicKey != "":
+		return "panic " + r.real.panicKey
+	case r.real.parseErr != nil:
+		return "parse error: " + r.real.parseErr.Error()
+	case !r.real.evaluated:
+		return "(not evaluated)"
+	}
+	return showGot(r.got, r.real.err)
+}
+
+func showVars(vars map[string]interface{}) map[string]string {
+	m := map[string]string{}
+	for k, v := range vars {
+		m[k] = fmt.Sprintf("%#v", v)
+	}
+	return m
+}
+
+// observe feeds the event counters of the evidence file.
+func (h *harness) observe(res result) {
+	c := h.c
+	if res.tree == nil {
+		return
+	}
+	if res.real.shape != "" {
+		c.Event("tree.compared", 1)
+	}
+	c.Event("outcome."+okindNames[res.exp.k], 1)
+	if res.real.evaluated {
+		if res.real.err != nil {
+			c.Event("real.error", 1)
+		} else {
+			c.Event("real.value", 1)
+		}
+	}
+}
+
+func (h *harness) opsOf(tree *node) {
+	tree.walk(func(n *node) {
+		if n.op != "" {
+			if n.unary {
+				h.c.Event("op.prefix."+n.op, 1)
+			} else {
+				h.c.Event("op."+n.op, 1)
+			}
+		}
+	})
+}
+
+// ---------------------------------------------------------------------------
+// operand choice for a flat form with slots
+
+type form struct {
+	toks  []token // flat sequence; slot atoms are distinct *atom values
+	slots []*atom
+}
+
+func mkForm(parts ...interface{}) form {
+	var f form
+	for _, p := range parts {
+		switch x := p.(type) {
+		case string:
+			f.toks = append(f.toks, tOp(x))
+		case int:
+			a := &atom{}
+			f.slots = append(f.slots, a)
+			f.toks = append(f.toks, tAtom(a))
+		}
+	}
+	return f
+}
+
+type choice struct {
+	operands []int // indexes into the pool
+	score    int   // 0 = not distinguishing
+	order    uint64
+}
+
+// chooseOperands enumerates every assignment of pool atoms to the slots,
+// evaluates the documented grouping and every other grouping of the same
+// tokens with the reference, and returns the k assignments that tell them
+// apart best (ties broken by a seed-dependent order).
+func chooseOperands(f form, pool []*atom, k int, seed uint64, tag string) []choice {
+	correct, err := refParse(f.toks)
+	if err != nil {
+		panic("c03: malformed form " + tokensText(f.toks) + ": " + err.Error())
+	}
+	cs := correct.shape0()
+	var alts []*node
+	for _, g := range allGroupings(f.toks) {
+		if g.shape0() != cs {
+			alts = append(alts, g)
+		}
+	}
+	n := len(f.slots)
+	total := 1
+	for i := 0; i < n; i++ {
+		total *= len(pool)
+	}
+	env := &evalEnv{}
+	var best []choice
+	ops := make([]int, n)
+	h0 := core.Hash64(tag) ^ seed*0x9E3779B97F4A7C15
+	for x := 0; x < total; x++ {
+		y := x
+		for i := n - 1; i >= 0; i-- {
+			ops[i] = y % len(pool)
+			y /= len(pool)
+			*f.slots[i] = *pool[ops[i]]
+		}
+		o := env.eval(correct)
+		score := 0
+		if o.k == oExcluded || o.k == oAny {
+			score = -3 // only the tree can be compared
+		} else if o.k != oVal && o.k != oErr {
+			score = -2 // the tree, and "a boolean or an error"
+		} else if len(alts) == 0 {
+			score = -1 // the tokens admit one grouping only
+		} else {
+			minD, sum := 3, 0
+			for _, a := range alts {
+				d := observablyDifferent(o, env.eval(a))
+				if d < minD {
+					minD = d
+				}
+				sum += d
+			}
+			// all alternatives distinguished > some distinguished; values before errors
+			score = minD*100 + sum*4
+			if o.k == oVal {
+				score += 2
+			}
+			if sum == 0 {
+				score = -1 // definite outcome, but no other grouping is observably different
+			}
+		}
+		z := h0 ^ uint64(x+1)*0xBF58476D1CE4E5B9
+		z ^= z >> 29
+		z *= 0x94D049BB133111EB
+		z ^= z >> 32
+		best = append(best, choice{append([]int(nil), ops...), score, z})
+	}
+	sort.Slice(best, func(i, j int) bool {
+		if best[i].score != best[j].score {
+			return best[i].score > best[j].score
+		}
+		return best[i].order < best[j].order
+	})
+	// take from the top, but not more than half of k from one score class so
+	// that value-distinguishing and error-distinguishing cases both appear
+	var out []choice
+	perClass := map[int]int{}
+	for _, b := range best {
+		if len(out) >= k {
+			break
+		}
+		if b.score <= 0 || perClass[b.score] >= (k+1)/2 {
+			continue
+		}
+		perClass[b.score]++
+		out = append(out, b)
+	}
+	for _, b := range best {
+		if len(out) >= k {
+			break
+		}
+		dup := false
+		for _, o := range out {
+			if o.order == b.order {
+				dup = true
+			}
+		}
+		if !dup {
+			out = append(out, b)
+		}
+	}
+	return out
+}
+
+// shape0 is the grouping without operand texts (slots are anonymous)
+func (n *node) shape0() string {
+	if n.op == "" {
+		return fmt.Sprintf("#%d", n.lo)
+	}
+	var ks []string
+	for _, k := range n.kids {
+		ks = append(ks, k.shape0())
+	}
+	return n.op + "(" + strings.Join(ks, ",") + ")"
+}
+
+func (f form) assign(pool []*atom, ch choice) {
+	for i, s := range f.slots {
+		*s = *pool[ch.operands[i]]
+	}
+}
+
+// runForm runs the chosen operand assignments of a form through the usual
+// variants: literals with plain layout, all operands as variables, and a mixed
+// one with random layout.
+func (h *harness) runForm(stream string, idx int, f form, pool []*atom, chs []choice, r *core.Rand, parens bool) {
+	c := h.c
+	for ci, ch := range chs {
+		f.assign(pool, ch)
+		// remember the literal atoms
+		lits := make([]atom, len(f.slots))
+		for i, s := range f.slots {
+			lits[i] = *s
+		}
+		for variant := 0; variant < 3; variant++ {
+			for i, s := range f.slots {
+				*s = lits[i]
+				if variant == 1 || (variant == 2 && r.Bool()) {
+					s.varName = fmt.Sprintf("v%d", i)
+				}
+			}
+			var src string
+			var spans []span
+			if variant == 2 {
+				src, spans, _ = renderRandom(f.toks, r)
+			} else {
+				src, spans = renderPlain(f.toks)
+			}
+			res := h.judge(stream, idx, f.toks, src, spans)
+			if variant == 0 && res.tree != nil {
+				h.opsOf(res.tree)
+				if ch.score > 0 {
+					c.NontrivialKey(stream + "|" + src)
+					c.Event("distinguishing", 1)
+				} else {
+					c.Event("not-distinguishing", 1)
+				}
+				if ci == 0 {
+					c.Sample(stream, map[string]interface{}{"source": src, "reference_tree": res.tree.shape(),
+						"reference_outcome": res.exp.String(), "observed": showObserved(res), "distinguishing": ch.score > 0})
+				}
+			}
+		}
+		for i, s := range f.slots {
+			*s = lits[i]
+		}
+		if parens && ci < 2 {
+			h.parenVariants(stream, idx, f)
+		}
+	}
+}
+
+// parenVariants: explicit parentheses must override the binding powers, and
+// redundant ones must change nothing. Works on flat forms "A op B op C".
+func (h *harness) parenVariants(stream string, idx int, f form) {
+	t := f.toks
+	if len(t) != 5 {
+		return
+	}
+	variants := [][]token{
+		{tLP, t[0], t[1], t[2], tRP, t[3], t[4]},
+		{t[0], t[1], tLP, t[2], t[3], t[4], tRP},
+		{tLP, t[0], t[1], t[2], t[3], t[4], tRP},
+		{tLP, tLP, t[0], tRP, tRP, t[1], tLP, t[2], tRP, t[3], tLP, t[4], tRP},
+	}
+	natural, _ := refParse(t)
+	for _, v := range variants {
+		src, spans := renderPlain(v)
+		res := h.judge(stream, idx, v, src, spans)
+		if res.tree != nil {
+			if res.tree.shape() != natural.shape() {
+				h.c.Event("parens.overriding", 1)
+				h.c.NontrivialKey("parens|" + src)
+			} else {
+				h.c.Event("parens.redundant", 1)
+			}
+		}
+	}
+}
+
+// ---------------------------------------------------------------------------
+
 // Run is the check.
 func Run(c *core.Ctx) {
+	c.Note("rule", "token sequences (operands: literals of all kinds and variables bound in the scope) are grouped by an independent precedence-climbing parser and evaluated by a reference evaluator written from the statement; the real side is ParseWithRuntime+Validate+Eval; compared: tree grouping and value / error kind+named operand. "+
+		"Streams: pair = all 19x19 binary operator pairs 'A op1 B op2 C', operands chosen by searching a 17-atom universe (17^3 triples) for assignments on which the documented grouping and the other grouping differ in value or error, each as literals / variables / random layout, plus forced and redundant parentheses; "+
+		"prefix = 3 prefix x 19 binary x both positions, premid = 'A op1 pre B op2 C' for all 3x19x19; assign = 'x := ...' forms; single = every operator x every pair of a 32-atom universe; errmatrix = every operator x operand-kind pair {null,bool,number,string,list,map}^2 as literal and variable plus failing sub-expressions as operands; layout = every gap of sampled expressions x 8 separators (spaces, tabs, newline after operator / inside brackets / before infix operator); rand = seeded random trees up to depth 6 (250 k quick, 6 M thorough) with random parentheses, layout, variables, ~3% ill-kinded children. "+
+		"Excluded by the generator/oracle: zero divisors of % (C06), container operands of comparisons/in (C06), mixed-kind comparisons and string operators on non-strings (unspecified: boolean-or-error required), escapes/interpolation in strings (C14), newline before infix + or - outside brackets (ambiguous). "+
+		"Non-trivial = distinct source texts with at least two operators whose reference outcome is a definite value or error and, in the matrix streams, on which the alternative grouping is observably different.")
+	erp := interpreter.NewECALRuntimeProvider("c03", nil, nil)
+	// one provider for the whole process; Cron.Stop may block on the cron
+	// goroutine's tick (krotik/common), so it is never awaited
+	defer func() { go erp.Cron.Stop() }()
+	h := &harness{c: c, erp: erp}
+
+	h.streamPair()
+	h.streamPrefix()
+	h.streamPremid()
+	h.streamAssign()
+	h.streamSingle()
+	h.streamErrMatrix()
+	h.streamLayout()
+	h.streamRand()
+}
+
+func (h *harness) begin(stream string, idx int, text string) { h.c.Begin(0, stream, idx, text) }
+func (h *harness) end()                                      { h.c.End(0) }
+
+// pair: A op1 B op2 C for all binary x binary
+func (h *harness) streamPair() {
+	c := h.c
+	pool := matrixPool()
+	k := c.Pick(6, 24)
+	n := len(binOps) * len(binOps)
+	for idx := 0; idx < n; idx++ {
+		if !c.Mine("pair", idx) {
+			continue
+		}
+		op1, op2 := binOps[idx/len(binOps)], binOps[idx%len(binOps)]
+		f := mkForm(0, op1, 1, op2, 2)
+		h.begin("pair", idx, "A "+op1+" B "+op2+" C")
+		chs := chooseOperands(f, pool, k, c.Seed, "pair"+op1+op2)
+		if len(chs) == 0 {
+			c.Event("form.without-definite-operands", 1)
+		}
+		h.runForm("pair", idx, f, pool, chs, c.Rng("pair", idx), true)
+		h.end()
+	}
+}
+
+// prefix: pre A op B and A op pre B
+func (h *harness) streamPrefix() {
+	c := h.c
+	pool := matrixPool()
+	k := c.Pick(8, 32)
+	n := len(prefixOps) * len(binOps) * 2
+	for idx := 0; idx < n; idx++ {
+		if !c.Mine("prefix", idx) {
+			continue
+		}
+		pre := prefixOps[idx/(len(binOps)*2)]
+		op := binOps[(idx/2)%len(binOps)]
+		var f form
+		if idx%2 == 0 {
+			f = mkForm(pre, 0, op, 1)
+		} else {
+			f = mkForm(0, op, pre, 1)
+		}
+		h.begin("prefix", idx, tokensTemplate(f))
+		chs := chooseOperands(f, pool, k, c.Seed, fmt.Sprint("prefix", idx))
+		if len(chs) == 0 {
+			c.Event("form.without-definite-operands", 1)
+		}
+		h.runForm("prefix", idx, f, pool, chs, c.Rng("prefix", idx), false)
+		h.end()
+	}
+}
+
+func tokensTemplate(f form) string {
+	var p []string
+	slot := 0
+	for _, t := range f.toks {
+		if t.k == tkAtom {
+			p = append(p, string(rune('A'+slot)))
+			slot++
+		} else {
+			p = append(p, t.op)
+		}
+	}
+	return strings.Join(p, " ")
+}
+
+// premid: A op1 pre B op2 C
+func (h *harness) streamPremid() {
+	c := h.c
+	pool := smallPool()
+	k := c.Pick(3, 12)
+	nb := len(binOps)
+	n := len(prefixOps) * nb * nb
+	for idx := 0; idx < n; idx++ {
+		if !c.Mine("premid", idx) {
+			continue
+		}
+		pre := prefixOps[idx/(nb*nb)]
+		op1, op2 := binOps[(idx/nb)%nb], binOps[idx%nb]
+		f := mkForm(0, op1, pre, 1, op2, 2)
+		h.begin("premid", idx, tokensTemplate(f))
+		chs := chooseOperands(f, pool, k, c.Seed, fmt.Sprint("premid", idx))
+		if len(chs) == 0 {
+			c.Event("form.without-definite-operands", 1)
+		}
+		h.runForm("premid", idx, f, pool, chs, c.Rng("premid", idx), false)
+		h.end()
+	}
+}
+
+// assign: x := A op B, x := pre A, x := A op1 B op2 C (assignment binds loosest)
+func (h *harness) streamAssign() {
+	c := h.c
+	pool := matrixPool()
+	nb := len(binOps)
+	n := nb + len(prefixOps) + nb*nb
+	k := c.Pick(4, 12)
+	for idx := 0; idx < n; idx++ {
+		if !c.Mine("assign", idx) {
+			continue
+		}
+		var f form
+		switch {
+		case idx < nb:
+			f = mkForm(0, binOps[idx], 1)
+		case idx < nb+len(prefixOps):
+			f = mkForm(prefixOps[idx-nb], 0)
+		default:
+			j := idx - nb - len(prefixOps)
+			f = mkForm(0, binOps[j/nb], 1, binOps[j%nb], 2)
+			if !c.Quick() || j%4 == int(c.Seed%4) {
+				// all pairs in the thorough tier, a quarter of them in the quick tier
+			} else {
+				continue
+			}
+		}
+		h.begin("assign", idx, "x := "+tokensTemplate(f))
+		kk := k
+		if len(f.slots) == 3 {
+			kk = 2
+		}
+		chs := chooseOperands(f, pool, kk, c.Seed, fmt.Sprint("assign", idx))
+		r := c.Rng("assign", idx)
+		target := &atom{varName: "x"}
+		toks := append([]token{tAtom(target), tOp(":=")}, f.toks...)
+		for ci, ch := range chs {
+			f.assign(pool, ch)
+			rhs, _ := refParse(f.toks)
+			env := &evalEnv{}
+			o := env.eval(rhs)
+			for variant := 0; variant < 2; variant++ {
+				var src string
+				var spans []span
+				if variant == 0 {
+					src, spans = renderPlain(toks)
+				} else {
+					src, spans, _ = renderRandom(toks, r)
+				}
+				res := h.judge("assign", idx, toks, src, spans)
+				if variant == 0 && res.tree != nil {
+					h.opsOf(res.tree)
+					// had := bound tighter than the operator, x would hold the first operand
+					first := val(f.slots[0].val)
+					if f.toks[0].k == tkOp {
+						first = outcome{k: oAny}
+					}
+					if observablyDifferent(o, first) > 0 {
+						c.NontrivialKey("assign|" + src)
+						c.Event("distinguishing", 1)
+					}
+					if ci == 0 {
+						c.Sample("assign", map[string]interface{}{"source": src, "reference_tree": res.tree.shape(),
+							"x_expected": res.exp.String(), "observed": showObserved(res)})
+					}
+				}
+			}
+		}
+		h.end()
+	}
+}
+
+// single: every operator on every pair of the wide universe
+func (h *harness) streamSingle() {
+	c := h.c
+	pool := widePool()
+	np := len(pool)
+	nb := len(binOps)
+	n := nb*np*np + len(prefixOps)*np*2
+	for idx := 0; idx < n; idx++ {
+		if !c.Mine("single", idx) {
+			continue
+		}
+		var toks []token
+		if idx < nb*np*np {
+			op := binOps[idx/(np*np)]
+			a, b := pool[(idx/np)%np], pool[idx%np]
+			toks = []token{tAtom(a), tOp(op), tAtom(b)}
+		} else {
+			j := idx - nb*np*np
+			pre := prefixOps[j/(np*2)]
+			a := pool[(j/2)%np]
+			if j%2 == 0 {
+				toks = []token{tOp(pre), tAtom(a)}
+			} else {
+				toks = []token{tOp(pre), tOp(pre), tAtom(a)}
+			}
+		}
+		src, spans := renderPlain(toks)
+		h.begin("single", idx, src)
+		res := h.judge("single", idx, toks, src, spans)
+		if res.tree != nil {
+			h.opsOf(res.tree)
+			if res.exp.k == oVal || res.exp.k == oErr {
+				c.NontrivialKey("single|" + src)
+			}
+			if idx%977 == 5 {
+				c.Sample("single", map[string]interface{}{"source": src, "reference_outcome": res.exp.String(), "observed": showObserved(res)})
+			}
+		}
+		h.end()
+	}
+}
+
+// errmatrix: operator x operand kind x operand kind, literal and variable
+// forms; then failing sub-expressions in every operand position.
+func (h *harness) streamErrMatrix() {
+	c := h.c
+	nb := len(binOps)
+	// part 1: binary: op x kindL x kindR x (literal|variable)^2 x 2 representatives
+	n1 := nb * 6 * 6 * 4 * 2
+	// part 2: prefix: op x kind x (literal|variable) x 2 representatives
+	n2 := len(prefixOps) * 6 * 2 * 2
+	// part 3: failing sub-expression as operand: (binary op x position + prefix) x 4 failing terms
+	n3 := (nb*2 + len(prefixOps)) * 4
+	for idx := 0; idx < n1+n2+n3; idx++ {
+		if !c.Mine("errmatrix", idx) {
+			continue
+		}
+		var toks []token
+		switch {
+		case idx < n1:
+			x := idx
+			rep := x % 2
+			x /= 2
+			forms := x % 4
+			x /= 4
+			kr := x % 6
+			x /= 6
+			kl := x % 6
+			x /= 6
+			reps := kindReps(rep)
+			a, b := reps[kl], reps[kr]
+			if forms&1 != 0 {
+				a = asVar(a, "va")
+			}
+			if forms&2 != 0 {
+				b = asVar(b, "vb")
+			}
+			toks = []token{tAtom(a), tOp(binOps[x]), tAtom(b)}
+		case idx < n1+n2:
+			x := idx - n1
+			rep := x % 2
+			x /= 2
+			asv := x % 2
+			x /= 2
+			k := x % 6
+			x /= 6
+			a := kindReps(rep)[k]
+			if asv == 1 {
+				a = asVar(a, "va")
+			}
+			toks = []token{tOp(prefixOps[x]), tAtom(a)}
+		default:
+			x := idx - n1 - n2
+			fi := x % 4
+			x /= 4
+			failing := [][]token{
+				{tLP, tAtom(numAtom("1")), tOp("+"), tAtom(strAtom("a", 0)), tRP},
+				{tLP, tOp("not"), tAtom(numAtom("1")), tRP},
+				{tLP, tAtom(numAtom("1")), tOp("in"), tAtom(numAtom("2")), tRP},
+				{tLP, tAtom(asVar(boolAtom(true), "vb")), tOp("*"), tAtom(numAtom("2")), tRP},
+			}[fi]
+			if x < nb*2 {
+				op := binOps[x/2]
+				// a well-kinded partner
+				var partner *atom
+				switch {
+				case isArith(op):
+					partner = numAtom("3")
+				case op == "and" || op == "or":
+					partner = boolAtom(true)
+				case op == "in" || op == "notin":
+					partner = listAtom(numAtom("1"))
+					if x%2 == 1 {
+						partner = numAtom("1")
+					}
+				case op == "like" || op == "hasPrefix" || op == "hasSuffix":
+					partner = strAtom("a", 0)
+				default:
+					partner = numAtom("3")
+				}
+				if x%2 == 0 {
+					toks = append(append([]token{}, failing...), tOp(op), tAtom(partner))
+				} else {
+					toks = append([]token{tAtom(partner), tOp(op)}, failing...)
+				}
+			} else {
+				toks = append([]token{tOp(prefixOps[x-nb*2])}, failing...)
+			}
+		}
+		src, spans := renderPlain(toks)
+		h.begin("errmatrix", idx, src)
+		res := h.judge("errmatrix", idx, toks, src, spans)
+		if res.tree != nil {
+			h.opsOf(res.tree)
+			if res.exp.k == oErr {
+				c.NontrivialKey("errmatrix|" + src)
+				c.Event("errmatrix.error-expected", 1)
+			} else {
+				c.Event("errmatrix."+okindNames[res.exp.k], 1)
+			}
+			if idx%397 == 3 {
+				c.Sample("errmatrix", map[string]interface{}{"source": src, "variables": showVars(collectVars(toks)),
+					"reference_outcome": res.exp.String(), "observed": showObserved(res)})
+			}
+		}
+		h.end()
+	}
+}
+
+// layout: every gap of a sampled expression x every admissible separator
+func (h *harness) streamLayout() {
+	c := h.c
+	n := c.Pick(160, 1600)
+	for idx := 0; idx < n; idx++ {
+		if !c.Mine("layout", idx) {
+			continue
+		}
+		r := c.Rng("layout", idx)
+		g := &rgen{r: r, errRate: 0, varRate: 25}
+		d := r.Range(1, 3)
+		var gn *gnode
+		if r.Bool() {
+			gn = g.boolean(d)
+		} else {
+			gn = g.num(d)
+		}
+		toks := g.flatten(gn, nil, false)
+		if r.Chance(1, 6) {
+			toks = append([]token{tAtom(&atom{varName: "x"}), tOp(":=")}, toks...)
+		}
+		plain := tokensText(toks)
+		h.begin("layout", idx, plain)
+		lx := lexemes(toks)
+		for gap := 1; gap < len(lx); gap++ {
+			for si, sep := range separators {
+				if si == 0 && gap > 1 {
+					continue // the all-single-space layout once
+				}
+				depth := 0
+				for _, l := range lx[:gap] {
+					if l.cls == '(' {
+						depth++
+					} else if l.cls == ')' {
+						depth--
+					}
+				}
+				if !sepAllowed(lx[gap-1], lx[gap], depth, sep) {
+					continue
+				}
+				src, spans, nl := render(toks, "", "", func(gi int, a, b lexeme, dp int) string {
+					if gi == gap {
+						return sep
+					}
+					return " "
+				})
+				res := h.judge("layout", idx, toks, src, spans)
+				if res.tree != nil {
+					c.NontrivialKey("layout|" + src)
+					if nl > 0 {
+						c.Event("layout.newline."+gapClass(lx[gap-1], lx[gap]), 1)
+					} else if sep == "" {
+						c.Event("layout.no-space", 1)
+					} else {
+						c.Event("layout.blank", 1)
+					}
+					if idx%37 == 1 && nl > 0 && gap == 2 {
+						c.Sample("layout", map[string]interface{}{"source": src, "reference_tree": res.tree.shape(), "observed": showObserved(res)})
+					}
+				}
+			}
+		}
+		// leading / trailing blank space and newlines
+		for _, lt := range [][2]string{{"\n", ""}, {"", "\n"}, {" \t", " \t"}, {"\n\n ", "\n\n"}} {
+			src, spans, _ := render(toks, lt[0], lt[1], nil)
+			// spans are relative to the full text already
+			h.judge("layout", idx, toks, src, spans)
+			c.Event("layout.lead-trail", 1)
+		}
+		h.end()
+	}
+}
+
+func gapClass(a, b lexeme) string {
+	switch {
+	case a.cls == 'b':
+		return "after-infix"
+	case a.cls == 'p':
+		return "after-prefix"
+	case a.cls == '(':
+		return "after-opening"
+	case a.cls == ',':
+		return "after-comma"
+	case b.cls == ')':
+		return "before-closing"
+	case b.cls == ',':
+		return "before-comma"
+	case b.cls == 'b':
+		return "before-infix"
+	}
+	return "other"
+}
+
+// rand: seeded random expressions up to depth 6
+func (h *harness) streamRand() {
+	c := h.c
+	n := c.Pick(250000, 6000000)
+	for idx := 0; idx < n; idx++ {
+		if !c.Mine("rand", idx) {
+			continue
+		}
+		r := c.Rng("rand", idx)
+		g := &rgen{r: r, errRate: 30, varRate: 30}
+		d := r.Range(1, 6)
+		var gn *gnode
+		if r.Bool() {
+			gn = g.boolean(d)
+		} else {
+			gn = g.num(d)
+		}
+		toks := g.flatten(gn, nil, false)
+		if r.Chance(1, 8) {
+			toks = append([]token{tAtom(&atom{varName: "x"}), tOp(":=")}, toks...)
+		}
+		var src string
+		var spans []span
+		nl := 0
+		if r.Chance(1, 3) {
+			src, spans = renderPlain(toks)
+		} else {
+			src, spans, nl = renderRandom(toks, r)
+		}
+		h.begin("rand", idx, src)
+		res := h.judge("rand", idx, toks, src, spans)
+		if res.tree != nil {
+			nops := res.tree.countOps()
+			if idx%16 == 0 {
+				h.opsOf(res.tree)
+			}
+			c.Event(fmt.Sprintf("rand.operators.%s", bucket(nops)), 1)
+			if nl > 0 {
+				c.Event("rand.with-newlines", 1)
+			}
+			if nops >= 2 && (res.exp.k == oVal || res.exp.k == oErr) {
+				c.Nontrivial(core.Hash64("rand|" + tokensText(toks)))
+			}
+			if idx%(n/3+1) == 11 {
+				c.Sample("rand", map[string]interface{}{"source": src, "variables": showVars(collectVars(toks)),
+					"reference_tree": res.tree.shape(), "reference_outcome": res.exp.String(), "observed": showObserved(res)})
+			}
+		}
+		h.end()
+	}
+}
+
+func bucket(n int) string {
+	switch {
+	case n <= 1:
+		return "1"
+	case n <= 3:
+		return "2-3"
+	case n <= 7:
+		return "4-7"
+	case n <= 15:
+		return "8-15"
+	}
+	return "16+"
 }
